@@ -16,6 +16,7 @@ include!("colls_extras.inc.rs");
 include!("colls_parts.inc.rs");
 include!("colls_cap.inc.rs");
 include!("colls_helpers.inc.rs");
+include!("colls_misc.inc.rs");
 
 thread_local! {
     static DROPS: RefCell<Vec<u32>> = const { RefCell::new(Vec::new()) };
@@ -88,6 +89,38 @@ struct Out {
     notes: Vec<String>,
 }
 
+
+/// every way the API offers to append / insert one element; the variant is chosen by the element's
+/// id so a case replays exactly.  A `try_` variant that reports an error is turned into the panic
+/// its twin would have raised, and the reference the `_mut` variants return must be the new element.
+macro_rules! push_any {
+    ($v:expr, $x:expr, $notes:expr) => {{
+        let id: u32 = $x;
+        match id % 8 {
+            0 => $v.push(E { id }),
+            1 => $v.push_with(|| E { id }),
+            2 => { let r = $v.push_mut(E { id }); if r.id != id { $notes.push("push_mut returned a reference to another element".to_string()); } }
+            3 => { let r = $v.push_mut_with(|| E { id }); if r.id != id { $notes.push("push_mut_with returned a reference to another element".to_string()); } }
+            4 => $v.try_push(E { id }).unwrap_or_else(|_| panic!("try_push failed")),
+            5 => $v.try_push_with(|| E { id }).unwrap_or_else(|_| panic!("try_push_with failed")),
+            6 => match $v.try_push_mut(E { id }) { Ok(r) => { if r.id != id { $notes.push("try_push_mut returned a reference to another element".to_string()); } } Err(_) => panic!("try_push_mut failed") },
+            _ => match $v.try_push_mut_with(|| E { id }) { Ok(r) => { if r.id != id { $notes.push("try_push_mut_with returned a reference to another element".to_string()); } } Err(_) => panic!("try_push_mut_with failed") },
+        }
+    }};
+}
+macro_rules! insert_any {
+    ($v:expr, $i:expr, $x:expr, $notes:expr) => {{
+        let id: u32 = $x;
+        let i: usize = $i;
+        match id % 4 {
+            0 => $v.insert(i, E { id }),
+            1 => { let r = $v.insert_mut(i, E { id }); if r.id != id { $notes.push("insert_mut returned a reference to another element".to_string()); } }
+            2 => $v.try_insert(i, E { id }).unwrap_or_else(|_| panic!("try_insert failed")),
+            _ => match $v.try_insert_mut(i, E { id }) { Ok(r) => { if r.id != id { $notes.push("try_insert_mut returned a reference to another element".to_string()); } } Err(_) => panic!("try_insert_mut failed") },
+        }
+    }};
+}
+
 macro_rules! common_ops {
     ($v:expr, $op:expr, $orc:expr, $yl:expr) => {
         match $op {
@@ -146,8 +179,8 @@ fn run_op(kind: &str, input: &[u32], op: &Op, ans: &[u8], up: bool) -> Out {
             let r = catch_unwind(AssertUnwindSafe(|| {
                 if !common_ops!(v, op, orc, yl) {
                     match op {
-                        Op::Insert(i, x) => v.insert(*i, E { id: *x }),
-                        Op::Push(x) => v.push(E { id: *x }),
+                        Op::Insert(i, x) => insert_any!(v, *i, *x, notes),
+                        Op::Push(x) => push_any!(v, *x, notes),
                         Op::SplitOff(a, b) => { other = Some(v.split_off(*a..*b)); }
                         _ => {}
                     }
@@ -192,8 +225,8 @@ fn run_op(kind: &str, input: &[u32], op: &Op, ans: &[u8], up: bool) -> Out {
             let r = catch_unwind(AssertUnwindSafe(|| {
                 if !common_ops!(v, op, orc, yl) {
                     match op {
-                        Op::Insert(i, x) => v.insert(*i, E { id: *x }),
-                        Op::Push(x) => v.push(E { id: *x }),
+                        Op::Insert(i, x) => insert_any!(v, *i, *x, notes),
+                        Op::Push(x) => push_any!(v, *x, notes),
                         _ => {}
                     }
                 }
@@ -211,8 +244,8 @@ fn run_op(kind: &str, input: &[u32], op: &Op, ans: &[u8], up: bool) -> Out {
             let r = catch_unwind(AssertUnwindSafe(|| {
                 if !common_ops!(v, op, orc, yl) {
                     match op {
-                        Op::Insert(i, x) => v.insert(*i, E { id: *x }),
-                        Op::Push(x) => v.push(E { id: *x }),
+                        Op::Insert(i, x) => insert_any!(v, *i, *x, notes),
+                        Op::Push(x) => push_any!(v, *x, notes),
                         Op::SplitOff(a, b) => { other = Some(v.split_off(*a..*b)); }
                         _ => {}
                     }
@@ -260,8 +293,8 @@ fn run_op(kind: &str, input: &[u32], op: &Op, ans: &[u8], up: bool) -> Out {
                 Op::Pop => { if let Some(e) = v.pop() { yl.push(e.id); core::mem::forget(e); } }
                 Op::Remove(i) => { let e = v.remove(*i); yl.push(e.id); core::mem::forget(e); }
                 Op::SwapRemove(i) => { let e = v.swap_remove(*i); yl.push(e.id); core::mem::forget(e); }
-                Op::Insert(i, x) => v.insert(*i, E { id: *x }),
-                Op::Push(x) => v.push(E { id: *x }),
+                Op::Insert(i, x) => insert_any!(v, *i, *x, notes),
+                Op::Push(x) => push_any!(v, *x, notes),
                 _ => {}
             }));
             uw = r.is_err();
@@ -850,6 +883,9 @@ fn main() {
             let (notes, clines) = partsx::parts_lines(&mut r);
             for c in clines { writeln!(w, "{c}").unwrap(); }
             for m in notes { writeln!(w, "X colls parts case :: {m}").unwrap(); }
+        }
+        if case % 10 == 7 {
+            for m in misc_probe(&mut r) { writeln!(w, "X colls misc probe :: {m}").unwrap(); }
         }
         if case % 10 == 5 {
             let (notes, cline) = extras_probe(&mut r);
